@@ -119,6 +119,7 @@ fn produce_generated(t: &mut Tape, world_no: u64, rep: &mut WorldReport) -> Opti
                 force_min_utxo: None,
                 rich_directives: rich,
                 optional_bias: false,
+            datum_bias: false,
             },
         );
         (format!("generated-{world_no}"), p.source(), Some(p))
@@ -477,7 +478,23 @@ fn inner_c11(world_no: u64, t: &mut Tape, rep: &mut WorldReport) {
     let expect_version_err = version_str != "v1beta0";
     let vs = version_str.clone();
     let w = wire.clone();
+    // decode history: the consumer process may already have decoded the intact artifact under
+    // its proper version (a server sees the same template many times); what it answers for the
+    // artifact on the wire must not depend on that
+    let warm = faulty && t.chance(1, 2);
+    if warm {
+        rep.fire("decode-history");
+    }
+    let clean_for_warm = clean.clone();
+    let proper = version.to_string();
     let decoded = in_consumer(s2, move || {
+        if warm {
+            let _ = guarded(|| {
+                if let Ok(v) = TirVersion::try_from(proper.as_str()) {
+                    let _ = tx3_tir::encoding::from_bytes(&clean_for_warm, v);
+                }
+            });
+        }
         guarded(|| -> Result<AnyTir, String> {
             let v = TirVersion::try_from(vs.as_str()).map_err(|e| format!("{e:?}"))?;
             tx3_tir::encoding::from_bytes(&w, v).map_err(|e| format!("{e:?}"))
@@ -1261,6 +1278,79 @@ fn inner_c16(world_no: u64, t: &mut Tape, rep: &mut WorldReport) {
                 };
                 p2.args = got;
                 back_end_stratum(t, rep, &tir_back, &p2);
+            }
+        }
+    }
+    // ---- request history: a second, independent request carrying the *same* envelope (a server
+    // sees one template many times) with its own values and its own split between args and env
+    if fault_free && !declared.is_empty() && t.chance(1, 2) {
+        let mut intended2: BTreeMap<String, Intended> = BTreeMap::new();
+        let mut placed2: BTreeMap<String, &'static str> = BTreeMap::new();
+        let mut args2 = serde_json::Map::new();
+        let mut env2 = serde_json::Map::new();
+        let mode = t.draw(3); // 0: mixed, 1: everything under env, 2: no env at all
+        for (k, ty) in &declared {
+            if t.chance(1, 4) {
+                continue;
+            }
+            let Some(v) = intended_for(t, ty) else { continue };
+            let (j, _) = render(t, &v);
+            let under_env = match mode {
+                1 => true,
+                2 => false,
+                _ => t.chance(1, 2),
+            };
+            if under_env {
+                env2.insert(k.clone(), j);
+                placed2.insert(k.clone(), "env");
+            } else {
+                args2.insert(k.clone(), j);
+                placed2.insert(k.clone(), "args");
+            }
+            intended2.insert(k.clone(), v);
+        }
+        let mut doc2 = json!({ "tir": doc["tir"].clone(), "args": J::Object(args2) });
+        if mode != 2 {
+            doc2["env"] = J::Object(env2);
+        }
+        rep.fire("second-request-same-envelope");
+        let docc = doc2.clone();
+        let parsed2 = in_consumer(s2, move || {
+            guarded(|| -> Result<(AnyTir, ArgMap), String> {
+                let req: tx3_resolver::trp::ResolveParams = serde_json::from_value(docc).map_err(|e| format!("request: {e}"))?;
+                tx3_resolver::trp::parse_resolve_request(req).map_err(|e| format!("{e}"))
+            })
+        });
+        rep.evaluations += 1;
+        match parsed2 {
+            Err(p) => rep.violate("C16", "J3-panic", p.site(), format!("parse_resolve_request panicked on a second request for the same envelope: {}", p.message)),
+            Ok(Err(e)) => rep.violate(
+                "C16",
+                "J2-args",
+                "valid-request-rejected/second-request",
+                format!("a well-formed second request for `{}`/{} (same envelope, other values) was rejected: {e}", prod.name, prod.txname),
+            ),
+            Ok(Ok((_, got))) => {
+                for (k, v) in &intended2 {
+                    match got.get(k) {
+                        None => rep.violate(
+                            "C16",
+                            "J2-args",
+                            format!("second-request/supplied-under-{}-but-missing", placed2.get(k).copied().unwrap_or("?")),
+                            format!("second request: declared parameter `{k}` was supplied under `{}` but is absent from the argument map", placed2.get(k).copied().unwrap_or("?")),
+                        ),
+                        Some(a) => {
+                            if !same_arg(v, a) {
+                                rep.violate("C16", "J2-args", "second-request/wrong-value", format!("second request: parameter `{k}`: template receives {a:?}, client meant {v:?}"));
+                            }
+                        }
+                    }
+                }
+                for k in got.keys() {
+                    if !intended2.contains_key(k) {
+                        rep.violate("C16", "J2-args", "second-request/unsupplied-key-present", format!("second request: key `{k}` is in the argument map but this request did not supply it"));
+                    }
+                }
             }
         }
     }
